@@ -9,16 +9,40 @@ def camp(profile, q, t):
     return {'profile': profile, 'n_quick': q, 'n_thorough': t}
 
 PROPS = {}
+LEDGER_THMS = ['Minter.balanced_preserves', 'Minter.planOf_balanced', 'Minter.Move.balanced', 'Minter.checked_holdings', 'Minter.checked_volume', 'Minter.checked_side']
+MODEL_NOTE = 'Theorems are about the Lean model (MinterModel); transaction types not yet in the model are listed in DESIGN.md and are covered only by the monitors evaluated on the real node'
 PROPS['C01'] = {
     'level': 'proof',
-    'theorems': [],
+    'theorems': LEDGER_THMS + ['Minter.C01_deliver_conserves', 'Minter.C01_block_body_conserves'],
     'campaigns': [camp('ledger', 16, 200), camp('orders', 8, 100), camp('staking', 8, 100)],
-    'assumptions': ['export at every commit is the abstraction function'],
+    'mismatch_counts': True,
+    'assumptions': ['the node\'s own export at every commit (re-read from disk) is the abstraction function', MODEL_NOTE],
 }
 PROPS['C02'] = {
     'level': 'proof',
     'theorems': [],
     'campaigns': [camp('ledger', 16, 200), camp('orders', 8, 100), camp('staking', 8, 100)],
+}
+PROPS['C03'] = {
+    'level': 'proof',
+    'theorems': ['Minter.C03_reject_fee_only', 'Minter.C04_nonce_effect', 'Minter.prologue_ne_zero'],
+    'campaigns': [camp('malformed', 16, 200), camp('ledger', 8, 100)],
+    'mismatch_counts': True,
+    'assumptions': [MODEL_NOTE],
+}
+PROPS['C04'] = {
+    'level': 'proof',
+    'theorems': ['Minter.C04_accept_in_order', 'Minter.C04_nonce_effect', 'Minter.C04_replay_rejected', 'Minter.prologue_none'],
+    'campaigns': [camp('malformed', 16, 200), camp('mixed', 8, 100)],
+    'mismatch_counts': True,
+    'assumptions': [MODEL_NOTE],
+}
+PROPS['C05'] = {
+    'level': 'proof',
+    'theorems': ['Minter.C05_balance_only_sender', 'Minter.C05_moves_need_authorization', 'Minter.move_debit_guard', 'Minter.deliver_moves_guarded'],
+    'campaigns': [camp('malformed', 16, 200), camp('mixed', 8, 100)],
+    'mismatch_counts': True,
+    'assumptions': [MODEL_NOTE, 'secp256k1 recovery is an oracle: the theorem speaks about the addresses the real RecoverPlain returned'],
 }
 PROPS['C07'] = {
     'level': 'proof',
